@@ -1037,6 +1037,10 @@ def known_signature(case, r, pred):
 
 # --------------------------------------------------------------------------- the check
 UNPROVED = [
+    'premises of C02_no_wrap_float_platform not discharged: scaled thresholds p_mn/p_mx are non-NaN; with nan2zero off the '
+    'scaled element is not NaN (simple IEEE facts for finite non-zero slope and finite intercept)',
+    'C02_read_error_real is over the rounding operator RN64; its identification with the binary64 operations of the '
+    'reload (no overflow; exact int32/float32 -> binary64 conversion) is not proved',
     'C02_float_gap_partial: NOT PROVED - that the exact float pipeline (float32 rounding of slope and intercept, '
     'working-precision subtraction/division, float64/float32 reload) stays within the stated allowance of the '
     'ideal (rational) pipeline; it is measured on every case by the direct predicate and the float layer is '
